@@ -173,7 +173,7 @@ def gen_analyze(rng):
     elif spec["open_end"] == "le":
         lead = rng.choice(["open", "open_gap", "open_gap"])
     # an open section is analysed with the forward direction given (which end is open is part of the request)
-    return {"k": "c10.analyze", "closed": spec["open_end"] is None, "pts": pts, "tol": 1e-6 * chord, "core_tol": 1e-4 * chord,
+    return {"k": "c10.analyze", "closed": spec["open_end"] is None, "pts": pts, "tol": 1e-6 * chord, "core_tol": rng.choice([1e-3, 1e-4, 1e-4, 1e-5, 1e-6]) * chord,
             "orient": fwd if spec["open_end"] else rng.choice(["tmax", fwd]), "face": rng.choice(["detect", up]),
             "leading": lead, "trailing": trail, "spec": spec, "timeout_ms": 20000, "also_reversed": spec.get("open_end") is not None,
             "gauges": [["camber", 0.3 * chord], ["camber", -0.3 * chord], ["camber", 0.5 * chord], ["radius", 0.2 * chord], ["radius", -0.2 * chord], ["radius", 0.45 * chord], ["radius", -0.45 * chord]]}
@@ -377,16 +377,16 @@ def oracle(c, r):
     for i, s in enumerate(st):
         d = dist_poly(s["c"], sec)
         forged = (i == 0 and c["leading"] == "const") or (i == len(st) - 1 and c["trailing"] == "const")
-        if abs(d - s["r"]) > 10 * tol and forged:
+        if abs(d - s["r"]) > tol and forged:
             # ConstRadiusEdge manufactures its end station from the smallest arc that fits five or more section vertices within the
             # tolerance; on densely sampled sections that need not be the edge arc
             yield ("const-edge-station-not-inscribed", what + ": the end station manufactured by ConstRadiusEdge (centre %r, radius %r) is %r from the section" % (s["c"], s["r"], d))
             return
-        if abs(d - s["r"]) > 10 * tol:
+        if abs(d - s["r"]) > tol:
             yield ("station-inscribed", what + ": station %d centre %r is %r from the section, radius %r" % (i, s["c"], d, s["r"]))
             return
         for nm in ("pos", "neg"):
-            if dist_poly(s[nm], sec) > 1e-6 * chord or abs(math.dist(s[nm], s["c"]) - s["r"]) > 5 * tol:
+            if dist_poly(s[nm], sec) > 1e-6 * chord or abs(math.dist(s[nm], s["c"]) - s["r"]) > tol:
                 yield ("station-contact", what + ": station %d contact %s %r is %r from the centre (radius %r), %r from the section" % (i, nm, s[nm], math.dist(s[nm], s["c"]), s["r"], dist_poly(s[nm], sec)))
                 return
     # 2. generated medial axis: map centres back to the generating frame
